@@ -39,6 +39,10 @@ func PrintFlat(n *Node) string {
 	return strings.TrimSpace(p.b.String())
 }
 
+// ParenRelational makes the printer parenthesise a relational left operand of a relational operator
+// (exclusion for the listed known finding C02-relational-right-assoc).
+var ParenRelational = false // fixed in /repo (af182ef): exclusion off
+
 type printer struct {
 	b      strings.Builder
 	indent int
@@ -233,6 +237,9 @@ func containsIn(n *Node) bool {
 	if n.K == KBin && n.S == "in" {
 		return true
 	}
+	if n.K == KFunc && n.Has(FArrow) && n.Has(FExprBody) && len(n.M) == 1 {
+		return containsIn(n.M[0].A) // the expression body of an arrow is part of the enclosing expression's text
+	}
 	if n.K == KFunc || n.K == KClass || n.K == KEval {
 		return false
 	}
@@ -353,6 +360,10 @@ func (p *printer) expr0(n *Node) string {
 		pr := binPrec[n.S]
 		if n.S == "**" {
 			return p.expr(n.A, 17) + " ** " + p.expr(n.B, 15)
+		}
+		if ParenRelational && pr == 11 && n.A.K == KBin && binPrec[n.A.S] == 11 {
+			// listed known finding C02-relational-right-assoc: goja parses a < b < c as a < (b < c)
+			return "(" + p.expr0(n.A) + ") " + n.S + " " + p.expr(n.B, pr+1)
 		}
 		return p.expr(n.A, pr) + " " + n.S + " " + p.expr(n.B, pr+1)
 	case KLogic:
